@@ -86,6 +86,7 @@ class SendPaths:
         self.block_ons = []
         import anchors
         self.record_def = anchors.record_def(f)
+        self.names = anchors.names(f)
         for b in f.fn_bodies():
             cfg = cfg_of(b, unwind=True, cancel=True)
             tr = tracer_of(b)
@@ -96,9 +97,9 @@ class SendPaths:
                     if st["k"] != "assign" or "agg" not in st["rv"] or st["rv"]["agg"] != "adt":
                         continue
                     rv = st["rv"]
-                    if rv["adt"] == "MailboxMessage":
+                    if rv["adt"] == self.names.mailbox:
                         flds = {n: tr.norm(tr.operand(o)) for n, o in zip(rv["fields"], rv["ops"])}
-                        (self.envelopes if rv["variant"] == "Envelope" else self.stop_markers).append((Site(b, blk.idx, i), flds, st))
+                        (self.envelopes if rv["variant"] == self.names.envelope else self.stop_markers).append((Site(b, blk.idx, i), flds, st))
                     elif rv["adt"] == "error::Error":
                         flds = {n: tr.norm(tr.operand(o)) for n, o in zip(rv["fields"], rv["ops"])}
                         self.errors.append((Site(b, blk.idx, i), rv["variant"], flds, st))
